@@ -3125,9 +3125,15 @@ static Node *new_inc_dec(Node *node, Token *tok, int addend) {
   //
   // The address of a bit-field cannot be taken. If A is a bit-field
   // S.x, tmp points to S.
+  //
+  // The result is the old value of A. If A is a bit-field that is
+  // promoted to int, so is its old value.
   Member *mem = NULL;
   Type *ty = node->ty;
+  Type *val_ty = ty;
   if (node->kind == ND_MEMBER && node->member->is_bitfield) {
+    if (ty->size == ty_int->size)
+      val_ty = promoted_type(node);
     mem = node->member;
     node = node->lhs;
   }
@@ -3155,7 +3161,7 @@ static Node *new_inc_dec(Node *node, Token *tok, int addend) {
   return new_binary(ND_COMMA, expr1,
                     new_binary(ND_COMMA, expr2,
                                new_binary(ND_COMMA, expr3,
-                                          new_cast(new_var_node(old, tok), ty),
+                                          new_cast(new_var_node(old, tok), val_ty),
                                           tok),
                                tok),
                     tok);
